@@ -52,7 +52,13 @@ TraceCI ==
                /\ Close(y[2], e.aff[1] * o(a)[2] + e.aff[2] * FS, 20 + tol)>>,
           <<"C13.componentwise", ~ok \/ \A a \in A : same(e.v_stack[K(a)], o(a), 2)>>}))
 
-Next == TraceCI
+(* a component without any finite replicate has no limits: NaN, for every method  *)
+TraceAllNaN ==
+  /\ IsEvent("bootci_all_nan")
+  /\ Report(Log[l], Failing({<<"C13.no_finite_replicate_gives_nan", Log[l].exc = "" /\ Log[l].all_nan
+                                                                    /\ Log[l].other_unaffected>>}))
+
+Next == TraceCI \/ TraceAllNaN
 Spec == Init /\ [][Next]_vars
 AllConsumed == TLCGet("stats").diameter - 1 = Len(Log)
 =============================================================================
